@@ -20,7 +20,8 @@ enum Item {
     Decl(Vec<String>),
     /// A comment or blank line inside a body / at top level.
     Trivia(String),
-    Loop { var: String, start: i64, end: i64, inclusive: bool, spaced: bool, body: Vec<Item> },
+    /// `end_var`: the upper bound is the placeholder of an enclosing loop variable (triangular nest)
+    Loop { var: String, start: i64, end: i64, end_var: Option<String>, inclusive: bool, spaced: bool, body: Vec<Item> },
 }
 
 fn values(start: i64, end: i64, inclusive: bool) -> Vec<i64> {
@@ -54,13 +55,17 @@ fn render_loops(items: &[Item], indent_unit: &str, depth: usize, out: &mut Strin
                     out.push('\n');
                 }
             }
-            Item::Loop { var, start, end, inclusive, spaced, body } => {
+            Item::Loop { var, start, end, end_var, inclusive, spaced, body } => {
                 out.push_str(&pad);
                 let dots = if *inclusive { "..=" } else { ".." };
+                let end_txt = match end_var {
+                    Some(v) => format!("{{{}}}", v),
+                    None => end.to_string(),
+                };
                 if *spaced {
-                    out.push_str(&format!("for {} in {} {} {}:\n", var, start, dots, end));
+                    out.push_str(&format!("for {} in {} {} {}:\n", var, start, dots, end_txt));
                 } else {
-                    out.push_str(&format!("for {} in {}{}{}:\n", var, start, dots, end));
+                    out.push_str(&format!("for {} in {}{}{}:\n", var, start, dots, end_txt));
                 }
                 render_loops(body, indent_unit, depth + 1, out);
             }
@@ -105,8 +110,13 @@ fn render_hand(items: &[Item], env: &mut Vec<(String, i64)>, out: &mut String) {
                 out.push_str(&subst(l, env));
                 out.push('\n');
             }
-            Item::Loop { var, start, end, inclusive, body, .. } => {
-                for val in values(*start, *end, *inclusive) {
+            Item::Loop { var, start, end, end_var, inclusive, body, .. } => {
+                // a bound written as the placeholder of an enclosing variable takes that variable's value
+                let end_val = match end_var {
+                    Some(v) => env.iter().rev().find(|(n, _)| n == v).map(|(_, x)| *x).unwrap_or(*end),
+                    None => *end,
+                };
+                for val in values(*start, end_val, *inclusive) {
                     env.push((var.clone(), val));
                     render_hand(body, env, out);
                     env.pop();
@@ -222,10 +232,12 @@ fn gen_loop(rng: &mut Rng, vars: &mut Vec<String>, depth: usize) -> Item {
     let start = if rng.chance(1, 8) { -(rng.below(3) as i64) - 1 } else { rng.below(4) as i64 };
     let inclusive = rng.chance(1, 2);
     let end = if inclusive { start + len - 1 } else { start + len };
+    // triangular nest: the inner bound is the outer variable (only when that keeps ranges small)
+    let end_var = if !vars.is_empty() && start >= 0 && rng.chance(1, 3) { Some(vars[rng.below(vars.len())].clone()) } else { None };
     vars.push(var.clone());
     let body = gen_body(rng, vars, depth);
     vars.pop();
-    Item::Loop { var, start, end, inclusive, spaced: rng.chance(1, 8), body }
+    Item::Loop { var, start, end, end_var, inclusive, spaced: rng.chance(1, 8), body }
 }
 
 fn gen_program(rng: &mut Rng) -> Vec<Item> {
